@@ -84,12 +84,13 @@ SETTLE = 8.0
 REQ_WINDOW = 3.0
 BASE_MTIME = 1_600_000_000
 
-TOP_DIRS = ('pub', 'priv', 'grp')
-NESTED = {'pub': 'inner', 'priv': 'rare', 'grp': 'club'}
+TOP_DIRS = ('pub', 'priv', 'grp', 'pub2')          # 'pub2': a sibling whose name has another directory's name as prefix
+NESTED = {'pub': 'inner', 'priv': 'rare', 'grp': 'club', 'pub2': 'more'}
 FILES = {
     'pub': ('song one.mp3', 'mix tape.ogg', 'live/concert song.flac', 'inner/deep song.mp3', 'inner/secret demo.mp3'),
     'priv': ('secret song.mp3', 'demo tape.mp3', 'rare/live bootleg.flac', 'rare/rare mix.ogg'),
     'grp': ('group song.mp3', 'club/secret mix.ogg', 'club/club tape.mp3'),
+    'pub2': ('second song.mp3', 'more/other mix.ogg'),
 }
 QUERIES = ('song', 'song', 'secret', 'tape', 'live', 'mix', 'demo', '*ong', 'song -secret', 'mp3', 'flac', 'bootleg',
            'deep', 'club', 'nomatch')
@@ -190,7 +191,12 @@ def generate(rng, index, tier):
         user = rng.choice(USERS)
         if r < 0.26 or (len(steps) < 2 and r < 0.6):
             granted = [(u, f['path']) for u in USERS for f in files if g_entitled(u, f['path'])]
-            if granted and rng.random() < 0.6:
+            earlier = [st for st in steps if st['op'] == 'queue']
+            if earlier and rng.random() < 0.25:
+                # the same user asks for the same file again (retry of a failed / finished / aborted download)
+                step = dict(rng.choice(earlier))
+                step['via'] = rng.choice(('queue', 'queue', 'request'))
+            elif granted and rng.random() < 0.6:
                 user, comps = rng.choice(granted)
                 step = {'op': 'queue', 'user': user, 'file': list(comps),
                         'variant': 'exact' if rng.random() < 0.85 else rng.choice(VARIANTS),
@@ -378,6 +384,30 @@ def corpus(tier):
         for f in slow['files']:
             f['size'] = 120000
         out.append(slow)
+    # 9. an upload that is already over (COMPLETE, or FAILED at a silent downloader) when the user is blocked / the
+    #    directory is locked / unshared; the peer then asks for the same file again
+    for change in ({'op': 'block', 'user': 'u1', 'flags': ['uploads']},
+                   {'op': 'update', 'dir': ['pub'], 'mode': 'friends', 'users': []},
+                   {'op': 'remove', 'dir': ['pub']}):
+        for dl in ({'reply': 'allow'}, {'reply': 'silent'}):
+            for via in ('queue', 'request'):
+                steps = [q('u1', 'pub/song one.mp3'), dict(change, gap=9.0), q('u1', 'pub/song one.mp3', via=via, gap=9.0),
+                         search('u1', 'server', 'song', gap=9.0)]
+                plan = _plan(three, steps, slots=1)
+                plan['dl'] = {u: dict(dl) for u in USERS}
+                out.append(plan)
+    # 10. sibling directories one of whose names is a prefix of the other's, with different modes; one is removed / re-added
+    for m_pub, m_pub2 in (('everyone', 'friends'), ('friends', 'everyone'), ('everyone', 'users')):
+        sib = [{'dir': ['pub'], 'mode': m_pub, 'users': ['u2']}, {'dir': ['pub2'], 'mode': m_pub2, 'users': ['u2']}]
+        for gone in ('pub2', 'pub'):
+            steps = [search('u1', 'server', 'song'), {'op': 'shares', 'user': 'u1'},
+                     {'op': 'remove', 'dir': [gone], 'gap': 1.2},
+                     search('u1', 'server', 'song', gap=0.05), search('u1', 'file', 'mix'), {'op': 'shares', 'user': 'u1'},
+                     {'op': 'dir', 'user': 'u1', 'dir': ['pub2', 'more'], 'form': 'exact'},
+                     q('u1', 'pub2/second song.mp3'), q('u1', 'pub/song one.mp3'), q('u1', 'pub2/second song.mp3', 'dotdot'),
+                     {'op': 'add', 'dir': [gone], 'mode': 'friends', 'users': [], 'scan': True, 'gap': 9.0},
+                     search('u1', 'server', 'song', gap=3.0), {'op': 'shares', 'user': 'u1'}]
+            out.append(_plan(sib, steps, slots=1))
     # 8. requests racing a change (same instant, 50 ms)
     for gap in (0.0, 0.05):
         out.append(_plan(three, [search('u1', 'server', 'secret'), {'op': 'friend', 'user': 'u1', 'value': True, 'gap': gap},
